@@ -114,7 +114,7 @@ func (p *Program) buildReplayTest(o *Obligation) (src, pkgDir, why string) {
 	if err != nil {
 		return "", "", err.Error()
 	}
-	defer os.RemoveAll(dir)
+	if os.Getenv("GOVC_KEEP_REPLAY") == "" { defer os.RemoveAll(dir) }
 	rc := &replayCtx{prog: p, o: o, pinned: map[string]string{}, want: map[string]*Term{}, objs: map[string]string{},
 		pkg: ei.pkg.Types, imports: map[string]bool{"testing": true}}
 	var args []string
